@@ -335,6 +335,21 @@ func checkMain(args []string) int {
 	}
 	sort.Strings(ids)
 	nUnknown := 0
+	var kids []string
+	for id := range agg.knownCount {
+		kids = append(kids, id)
+	}
+	sort.Strings(kids)
+	for _, id := range kids {
+		fv := agg.knownFirst[id]
+		k := isKnown(known, *prop, fv.V)
+		what := ""
+		if k != nil {
+			what = k.What
+		}
+		knownHit[id] = agg.knownCount[id]
+		fmt.Printf("KNOWN-FINDING: property=%s %s — %s (hit in %d runs, e.g. seed %d)\n", *prop, id, what, agg.knownCount[id], fv.Seed)
+	}
 	for _, id := range ids {
 		fv := agg.firstViolation[id]
 		if k := isKnown(known, *prop, fv.V); k != nil {
@@ -395,12 +410,14 @@ type aggregate struct {
 	samples        [][]string
 	firstViolation map[string]firstV
 	violationCount map[string]int
+	knownCount     map[string]int
+	knownFirst     map[string]firstV
 	crashed        []crashInfo
 }
 
 func newAggregate(prop string) *aggregate {
 	return &aggregate{prop: prop, shapes: map[string]struct{}{}, states: map[string]struct{}{}, probes: map[string]int{}, faults: map[string]int{},
-		foreign: map[string]int{}, firstViolation: map[string]firstV{}, violationCount: map[string]int{}}
+		foreign: map[string]int{}, firstViolation: map[string]firstV{}, violationCount: map[string]int{}, knownCount: map[string]int{}, knownFirst: map[string]firstV{}}
 }
 
 func (a *aggregate) add(r *RunResult) {
@@ -428,6 +445,12 @@ func (a *aggregate) add(r *RunResult) {
 	}
 	if len(r.Sample) > 0 && len(a.samples) < 2 {
 		a.samples = append(a.samples, r.Sample)
+	}
+	for _, v := range r.Known {
+		a.knownCount[v.ID()]++
+		if _, ok := a.knownFirst[v.ID()]; !ok {
+			a.knownFirst[v.ID()] = firstV{V: v, Seed: r.Seed}
+		}
 	}
 	for _, v := range r.Violations {
 		id := v.ID()
